@@ -9,6 +9,7 @@
 package transform // import "go.opentelemetry.io/otel/exporters/otlp/otlplog/otlploghttp/internal/transform"
 
 import (
+	"math"
 	"time"
 
 	cpb "go.opentelemetry.io/proto/otlp/common/v1"
@@ -97,7 +98,8 @@ func LogRecord(record log.Record) *lpb.LogRecord {
 		Body:                 LogAttrValue(record.Body()),
 		Attributes:           make([]*cpb.KeyValue, 0, record.AttributesLen()),
 		Flags:                uint32(record.TraceFlags()),
-		// TODO: DroppedAttributesCount: /* ... */,
+		// nolint:gosec // The dropped count is never negative.
+		DroppedAttributesCount: uint32(min(record.DroppedAttributes(), math.MaxUint32)),
 	}
 	record.WalkAttributes(func(kv api.KeyValue) bool {
 		r.Attributes = append(r.Attributes, LogAttr(kv))
